@@ -69,12 +69,17 @@ def gen(seed, tier):
         if pop == "adopting":
             # adoptions in flight while the stop arrives: a second thread submits them around the same time
             adopters = [{"id": "a%d" % ph, "script": [["wait-running"]] + ([["sleep", tsd]] if (tsd and not second) else []) + [x for pid in ids for x in (["adopt", pid], ["sleep", rng.choice([0.0, 0.0, 0.01])])]}]
-        end = rng.choice(["shutdown", "shutdown", "shutdown-payload", "shutdown-payload", "sigint", "fail", "fail-then-shutdown"])
+        end = rng.choice(["shutdown", "shutdown", "shutdown-payload", "shutdown-payload", "sigint", "fail", "fail-then-shutdown", "sigint-then-shutdown", "shutdown-twice"])
         script.append(["mark", "trigger%d" % ph])
         if end == "shutdown":
             script.append(["shutdown"])
         elif end == "sigint":
             script.append(["sigint"])
+        elif end == "sigint-then-shutdown":
+            # a stop request while the interrupt is being handled: accept() still returns normally
+            script += [["sigint"], ["sleep", rng.choice([0.0, 0.001, 0.01, 0.05, 0.15])], ["shutdown"]]
+        elif end == "shutdown-twice":
+            script += [["shutdown"], ["sleep", rng.choice([0.0, 0.001, 0.05, 0.5])], ["shutdown"]]
         elif end == "shutdown-payload":
             sfl = rng.choice(["threading", "threading", "asyncio", "trio"])
             # from a thread payload directly, or from a coroutine payload through a worker thread of its framework
